@@ -367,7 +367,20 @@ class Zeroconf(QuietLogger):
         """Registers service information to the network with a default TTL.
         Zeroconf will then respond to requests for information for that
         service."""
+        replaced = self.registry.async_get_info_name(info.key)
         self.registry.async_update(info)
+        if replaced is not None and replaced is not info:
+            # Answers queued for earlier queries must not bring back the
+            # records this update replaces once the new ones are announced
+            assert replaced.server_key is not None
+            stale: Set[DNSRecord] = {replaced.dns_pointer(), replaced.dns_service(), replaced.dns_text()}
+            stale.update(replaced.get_address_and_nsec_records())
+            stale.difference_update((info.dns_pointer(), info.dns_service(), info.dns_text()))
+            stale.difference_update(info.get_address_and_nsec_records())
+            for other in self.registry.async_get_infos_server(replaced.server_key):
+                stale.difference_update(other.get_address_and_nsec_records())
+            self.out_queue.async_remove_records(stale)
+            self.out_delay_queue.async_remove_records(stale)
         return asyncio.ensure_future(self._async_broadcast_service(info, _REGISTER_TIME, None))
 
     async def async_get_service_info(
